@@ -30,6 +30,8 @@ MODULES = [
         dict(name='R-byval-handle:cawb', pat='fn compress_and_write_block<W: io::Write>(\n    mut writer: W,', rep='fn compress_and_write_block<W: io::Write>(\n    writer: &mut W,'),
         dict(name='R-bytes:u64', kind='re', pat=r'\b(offset|index_block_offset)\.to_(be|le)_bytes\(\)', rep=r'crate::vstubs::u64_to_\2_bytes(\1)', count=4),
         dict(name='R-drop:explicit', pat='    let buffer = block_writer.finish();\n', rep='    let mut buffer_bb = block_writer.finish();\n    let buffer = &buffer_bb;\n'),
+        # R-tail-let: name the temporary so that a proof hint can mention it (evaluation order unchanged)
+        dict(name='R-tail-let:memory', pat='        self.build(Vec::new())\n', rep='        let sink0 = Vec::new();\n        self.build(sink0)\n'),
     ]),
     dict(name='block', file='block.rs', header=HDR_IO, rewrites=[
         dict(name='R-path:byteorder', pat='use byteorder::', rep='use crate::byteorder::'),
